@@ -73,15 +73,23 @@ func allKeys(sc script) []cesium.ChannelKey {
 	return ks
 }
 
-func durableAfter(sc script, op string, prev bool) bool {
+func durableAfter(sc script, op string, prev bool, before string) bool {
 	f := strings.Fields(op)
 	switch f[0] {
 	case "write":
+		// an auto-committed write issued after a pause longer than the index persist interval
+		// must flush the index (the pause is a lower bound on the time since the last flush)
+		if sc.cfg.AutoCommit && sc.cfg.Persist > 0 && strings.HasPrefix(before, "sleep ") {
+			ms, _ := strconv.Atoi(strings.Fields(before)[1])
+			if telem.TimeSpan(ms)*telem.Millisecond > sc.cfg.Persist {
+				return true
+			}
+		}
 		if sc.cfg.AutoCommit {
 			return prev && sc.cfg.Persist == cesium.AlwaysIndexPersistOnAutoCommit
 		}
 		return prev // nothing becomes visible before commit
-	case "open":
+	case "open", "sleep":
 		return prev
 	default: // commit, close, reopen, del, gc, rgc, mkch, rmch, rnch
 		return true
@@ -119,7 +127,12 @@ func run(sc script, crashAt, torn int) (o outcome) {
 	o.states = append(o.states, state{snapshot(w, keys), true})
 	for i, op := range sc.ops {
 		var obs string
-		if strings.HasPrefix(op, "del ") || op == "gc" || op == "rgc" {
+		if strings.HasPrefix(op, "sleep ") {
+			// lets a time-based index persist interval elapse between two commits; whether it
+			// did is not assumed anywhere: the durable floor stays where it was
+			ms, _ := strconv.Atoi(strings.Fields(op)[1])
+			time.Sleep(time.Duration(ms) * time.Millisecond)
+		} else if strings.HasPrefix(op, "del ") || op == "gc" || op == "rgc" {
 			obs, err = w.ApplyDel(op)
 		} else {
 			obs, err = w.Apply(op)
@@ -132,7 +145,11 @@ func run(sc script, crashAt, torn int) (o outcome) {
 			o.err = fmt.Sprintf("script step %q did not succeed without a crash: %v %v %s", op, obs, err, w.Poisoned)
 			return
 		}
-		o.states = append(o.states, state{snapshot(w, keys), durableAfter(sc, op, o.states[len(o.states)-1].durable)})
+		before := ""
+		if i > 0 {
+			before = sc.ops[i-1]
+		}
+		o.states = append(o.states, state{snapshot(w, keys), durableAfter(sc, op, o.states[len(o.states)-1].durable, before)})
 	}
 	return
 }
@@ -251,12 +268,48 @@ func classify(kind, op string, k cesium.ChannelKey, log []string) string {
 				continue
 			}
 			if strings.HasPrefix(log[i], "truncate") || strings.Contains(log[i], "TORN") {
+				if strings.HasPrefix(log[i], "truncate") && op != "del" && op != "rmch" && shrinks(log, i, file) {
+					// the recorded finding is a rewrite that never cuts below what was there;
+					// cutting durable pointers off during a commit or close is something else
+					return "index-truncated-below-its-durable-content:" + op
+				}
 				return "index-rewrite-interrupted"
 			}
 			break
 		}
 	}
 	return "inconsistent-after-crash:" + kind + ":" + op + ":" + lastKind(log)
+}
+
+// shrinks reports whether the truncate at log[i] makes file shorter than the mutations
+// before it had left it.
+func shrinks(log []string, i int, file string) bool {
+	size := 0
+	for _, e := range log[:i] {
+		if !strings.Contains(e, file) {
+			continue
+		}
+		f := strings.Fields(e)
+		switch f[0] {
+		case "create", "open-trunc":
+			size = 0
+		case "truncate":
+			size, _ = strconv.Atoi(f[len(f)-1])
+		case "writeat":
+			var off, n int
+			fmt.Sscanf(f[len(f)-2]+" "+f[len(f)-1], "@%d %dB", &off, &n)
+			if off+n > size {
+				size = off + n
+			}
+		case "write":
+			var n int
+			fmt.Sscanf(f[len(f)-1], "%dB", &n)
+			size += n
+		}
+	}
+	f := strings.Fields(log[i])
+	to, _ := strconv.Atoi(f[len(f)-1])
+	return to < size
 }
 
 func tail(l []string, n int) []string {
@@ -316,6 +369,8 @@ func scripts(quick bool) []script {
 			[]string{"open 0 all 0 0", "write 0 2", "write 0 2", "write 0 1", "close 0", "del dall 3 8", "gc", "del all 0 2", "gc"}},
 		{"s6 back-filled sessions sharing files, delete, GC after reopen", cz.Config{GridN: 5, AutoCommit: true, Persist: always, Channels: []cesium.ChannelKey{cz.T, cz.I64}, GC: 0.0000001, FileCap: 1000},
 			[]string{"open 0 all 3 0", "write 0 2", "close 0", "open 0 all 0 0", "write 0 2", "close 0", "del d1 9 10", "rgc"}},
+		{"s10 autocommit, 20 ms persist interval, 20-byte files: commits extend a domain and roll the file over before the interval elapsed, later ones persist after it", cz.Config{GridN: 8, FileCap: 20, AutoCommit: true, Persist: 20 * telem.Millisecond, Channels: []cesium.ChannelKey{cz.T, cz.I64}},
+			[]string{"open 0 all 0 0", "write 0 2", "write 0 2", "write 0 2", "sleep 45", "write 0 2", "close 0"}},
 		{"s7 channel create / rename / delete next to data", cz.Config{GridN: 4, AutoCommit: true, Persist: always, Channels: []cesium.ChannelKey{cz.T, cz.I64}},
 			[]string{"open 0 all 0 0", "write 0 2", "close 0", "mkch 4", "rnch 2", "mkch 3", "rmch 4", "rmch 3", "reopen"}},
 	}
@@ -354,6 +409,11 @@ func main() {
 			var k, torn int
 			fmt.Sscanf(v.Trace[0], "crash-at %d torn %d", &k, &torn)
 			ref := run(sc, -1, 0)
+		if os.Getenv("C02_DEBUG") != "" && strings.HasPrefix(sc.name, os.Getenv("C02_DEBUG")) {
+			for i, l := range ref.log {
+				fmt.Fprintf(os.Stderr, "LOG %3d %s\n", i, l)
+			}
+		}
 			// mutation order inside one commit follows Go map iteration: retry a few times
 			for i := 0; i < 30; i++ {
 				if viol := recoverAndCheck(sc, ref, run(sc, k, torn)); viol != nil {
@@ -376,6 +436,11 @@ func main() {
 	images, mutTotal := 0, 0
 	for _, sc := range all {
 		ref := run(sc, -1, 0)
+		if os.Getenv("C02_DEBUG") != "" && strings.HasPrefix(sc.name, os.Getenv("C02_DEBUG")) {
+			for i, l := range ref.log {
+				fmt.Fprintf(os.Stderr, "LOG %3d %s\n", i, l)
+			}
+		}
 		if ref.err != "" {
 			r.HarnessError("script %s: %s", sc.name, ref.err)
 			continue
